@@ -1895,12 +1895,20 @@ def ks_check(ctx, batch_keys, ycap, origin):
                       f'{[fmt_path(p) for p in ys][:3]} model {got[i][:300]!r}'[:1500])
             if cur is not None:
                 _state.setdefault('bad', []).append(('kekule-component-search', cur))
-        if status.startswith('crash') and dom:
+        if status.startswith('crash') and origin == 'recorded':
+            # (generated degree-2/3 graphs may contain a bond that lies in no ring — two rings joined by a bridge — on which
+            #  the real search runs into `pop from empty list`; `__prepare_rings` never hands such a component over)
             ctx.cov['disagreements_checked'] += 1
             ctx.broke('relational', 'search-crashes-on-prepared-component', f'{origin}: {k}: {status}'[:800])
             if cur is not None:
                 _state.setdefault('bad', []).append(('search-crash', cur))
         if not dom or status.startswith('crash'):
+            continue
+        adj = dict(rings)
+        if any(len(adj[n]) == 3 and n not in dbl for n in pyr):
+            # an ambiguous atom with three ring neighbours (ring-fusion P / As / B-): outside the claim — the search can
+            # assign one bond twice and leave another out there (SearchSound is stated for two-connected ambiguous atoms)
+            ctx.dist('ks:three-connected-ambiguous-atom(outside the soundness claim)')
             continue
         # SearchSound / SearchNoDup / SearchComplete (Props/C05.lean state them; here they are evaluated on the real output)
         size = sum(len(ms) for _, ms in rings) // 2
@@ -1931,6 +1939,15 @@ def ks_check(ctx, batch_keys, ycap, origin):
                 _state.setdefault('bad', []).append(('search-unsound', cur))
 
 
+# regression cases of the verbatim tie: (1) a three-connected ambiguous atom: one bond assigned twice, one never (quoted in
+# Props/C05.lean at `SearchSound`); (2) two rings joined by a bond that lies in no ring: `pop from empty list`
+KS_FIXED = [
+    ks_key([(3, [14, 5]), (14, [10, 12, 3]), (5, [3, 12]), (10, [14, 17, 20]), (12, [14, 5, 4]), (17, [20, 10, 4]),
+            (20, [17, 10, 4]), (4, [12, 17, 20])], [12], [4, 5], 1),
+    ks_key([(6, [7, 17]), (7, [19, 6, 17]), (17, [7, 6]), (19, [1, 11, 7]), (1, [19, 11]), (11, [1, 19])], [19, 6], [], 1),
+]
+
+
 def ks_stream(ctx):
     """K: `_kekule_component` against Model/C05Search.lean — (1) every distinct call the conversions of this run made,
     (2) all small components with all labelings, (3) random ring-system-like components incl. ill-formed ones"""
@@ -1938,13 +1955,13 @@ def ks_stream(ctx):
     t0 = time.time()
     calls = list(_state.get('ks_calls', {}))
     n_calls = len(calls)
-    cap = 7000 if ctx.quick else 120000
+    cap = 5000 if ctx.quick else 40000
     if len(calls) > cap:
         calls = rng.sample(calls, cap)
     for i in range(0, len(calls), 4000):
         ks_check(ctx, calls[i:i + 4000], KS_YIELDS, 'recorded')
     t1 = time.time()
-    keys = []
+    keys = list(KS_FIXED)
     n_ex = 4 if ctx.quick else 5
     for n in range(3, n_ex + 1):
         for rings in small_components(n):
@@ -1958,11 +1975,11 @@ def ks_stream(ctx):
                         keys.append(ks_key(rings, dbo, pyr, buf))
     n_exh = len(keys)
     bigger = list(small_components(n_ex + 1))
-    for _ in range(5000 if ctx.quick else 60000):
+    for _ in range(4000 if ctx.quick else 40000):
         r = shuffled_component(rng, rng.choice(bigger))
         db, pyr = labelled(rng, r, rng.choice([0, .15, .3]), rng.choice([0, .15, .3, .6]))
         keys.append(ks_key(r, db, pyr, rng.choice([0, 1, 2, 7])))
-    for i in range(2500 if ctx.quick else 40000):
+    for i in range(2500 if ctx.quick else 25000):
         r = shuffled_component(rng, random_component(rng, i % 3 == 0))
         db, pyr = labelled(rng, r, rng.choice([0, .1, .3]), rng.choice([0, .1, .3]))
         keys.append(ks_key(r, db, pyr, rng.choice([0, 1, 2, 7])))
@@ -2116,7 +2133,7 @@ def correspond_conversions(ctx):
         mols.append((f'small-ring-fusion:{name}#{j}', m))
     for j, (name, m) in enumerate(phenylenes()):
         mols.append((f'phenylene:{name}#{j}', m))
-    for j, (name, m) in enumerate(pi_complexes(rng, 90 if ctx.quick else None)):
+    for j, (name, m) in enumerate(pi_complexes(rng, 60 if ctx.quick else None)):
         mols.append((f'pi-complex:{name}#{j}', m))
     mols += molgen.corpus(rng, 280 if ctx.quick else 4200)
     n_gen = 300 if ctx.quick else 2500
